@@ -82,7 +82,8 @@ class C19(Check):
             out.append({"halt": rng.random() < 0.5, "max": rng.choice(MAXES),
                         "stages": [self._rand_stage(rng) for _ in range(ns)], "x": rng.randint(-4, 9),
                         "mode": rng.choice(["sequential", "sequential", "parallel", "conditional", "amplifying"]),
-                        "runs": rng.choice([1, 2, 2, 3])})
+                        "runs": rng.choice([1, 2, 2, 3]),
+                        "build": rng.choice(["add", "add", "insert", "reverse-insert", "dummy-removed", "late-gate", "mixed"])})
         return out
 
     def exhaustive_cases(self):
@@ -98,7 +99,8 @@ class C19(Check):
                 for halt in (True, False):
                     out.append({"halt": halt, "max": 10.0, "stages": list(combo), "x": 3,
                                 "mode": ["sequential", "parallel", "conditional", "amplifying"][(len(out) // 7) % 4],
-                                "runs": 1 + (len(out) % 2)})
+                                "runs": 1 + (len(out) % 2),
+                                "build": ["add", "insert", "reverse-insert", "dummy-removed", "late-gate", "mixed"][(len(out) // 3) % 6]})
         return out
 
     def extra_checks(self):
@@ -121,6 +123,7 @@ class C19(Check):
         stages = case["stages"]
         mode = {m.value: m for m in C.CascadeMode}[case.get("mode", "sequential")]
         casc = C.Cascade("c", mode=mode, max_amplification=case["max"], halt_on_failure=case["halt"], silent=True)
+        built = []
         for i, s in enumerate(stages):
             def mk(i, s):
                 def checkpoint(x):
@@ -147,7 +150,41 @@ class C19(Check):
                 return C.CascadeStage(name=f"s{i}", processor=processor, amplification=s["f"],
                                       checkpoint=checkpoint if s["c"] else None,
                                       on_error=on_error if s["h"] else None, required=s["req"])
-            casc.add_stage(mk(i, s))
+            built.append(mk(i, s))
+        # the pipeline is assembled through the whole public construction API; the result is always the same
+        # ordered list of stages
+        how = case.get("build", "add")
+        if how == "add":
+            for st in built:
+                casc.add_stage(st)
+        elif how == "insert":
+            for k, st in enumerate(built):
+                casc.insert_stage(k, st)
+        elif how == "reverse-insert":
+            for st in reversed(built):
+                casc.insert_stage(0, st)
+        elif how == "dummy-removed":
+            casc.add_stage(C.CascadeStage(name="dummy", processor=lambda x: x, checkpoint=lambda x: True))
+            for st in built:
+                casc.add_stage(st)
+            casc.remove_stage("dummy")
+        elif how == "late-gate":
+            gates = [st.checkpoint for st in built]
+            for st in built:
+                st.checkpoint = None
+                casc.add_stage(st)
+            for st, g in zip(built, gates):
+                st.checkpoint = g
+        else:
+            for k, st in enumerate(built):
+                if k % 2 == 0:
+                    casc.add_stage(st)
+            pos = 1
+            for k, st in enumerate(built):
+                if k % 2 == 1:
+                    casc.insert_stage(pos, st)
+                    pos += 2
+        assert [st.name for st in casc._stages] == [f"s{i}" for i in range(len(stages))], "harness: wrong stage order"
         # the same object is run several times: every run must be judged (and come out) on its own
         earlier = []
         for _ in range(max(0, case.get("runs", 1) - 1)):
